@@ -124,6 +124,11 @@ func ruleDoBarrier(c *Ctx, r *R) {
 			if cal := x.Call.StaticCallee(); cal != nil && fname(cal) == "Wait" && cal.Signature.Recv() != nil && isNamedType(cal.Signature.Recv().Type(), "sync", "WaitGroup") {
 				return ss(2), true
 			}
+		case deferredCall:
+			// defer wg.Wait(), replayed at every exit
+			if cal := x.Defer.Call.StaticCallee(); cal != nil && cal.Name() == "Wait" && cal.Signature.Recv() != nil && isNamedType(cal.Signature.Recv().Type(), "sync", "WaitGroup") {
+				return ss(2), true
+			}
 		}
 		return 0, false
 	}
@@ -145,13 +150,9 @@ func ruleDoBarrier(c *Ctx, r *R) {
 	okAdd := false
 	if add != nil && len(bi.spawned) == 1 {
 		site := bi.spawnAt[bi.spawned[0]]
-		for _, b := range do.Blocks {
-			if iff, ok := b.Instrs[len(b.Instrs)-1].(*ssa.If); ok {
-				if bin, ok := iff.Cond.(*ssa.BinOp); ok && bin.Op == token.LSS && b.Succs[0].Dominates(site.Block()) && reaches(site.Block(), b) {
-					if sameVar(bin.Y, add.Call.Args[1]) && add.Block().Dominates(b) {
-						okAdd = true
-					}
-				}
+		if bound, hb := spawnLoopBound(do, site); bound != nil {
+			if sameVar(bound, add.Call.Args[1]) && add.Block().Dominates(hb) {
+				okAdd = true
 			}
 		}
 	}
@@ -414,14 +415,7 @@ func ruleDoBounded(c *Ctx, r *R) {
 			continue
 		}
 		site := bi.spawnAt[bi.spawned[0]]
-		var bound ssa.Value
-		for _, b := range fn.Blocks {
-			if iff, ok := b.Instrs[len(b.Instrs)-1].(*ssa.If); ok {
-				if bin, ok := iff.Cond.(*ssa.BinOp); ok && bin.Op == token.LSS && b.Succs[0].Dominates(site.Block()) && reaches(site.Block(), b) {
-					bound = bin.Y
-				}
-			}
-		}
+		bound, _ := spawnLoopBound(fn, site)
 		good := false
 		why := "spawn loop bound not found"
 		// the API function's two integer parameters, in order: parallelism and n
@@ -750,4 +744,47 @@ func mapCallback(fn *ssa.Function) *ssa.Function {
 		}
 	})
 	return cb
+}
+
+// spawnLoopBound: the number of iterations of the loop around the spawn site: `for j := 0; j < B; j++` (B) or the count-down
+// form `for w := B; w > 0; w--` (B = the value the counter starts with). Returns the bound and the loop-header block.
+func spawnLoopBound(fn *ssa.Function, site ssa.Instruction) (ssa.Value, *ssa.BasicBlock) {
+	for _, b := range fn.Blocks {
+		iff, ok := b.Instrs[len(b.Instrs)-1].(*ssa.If)
+		if !ok {
+			continue
+		}
+		bin, ok := iff.Cond.(*ssa.BinOp)
+		if !ok || !b.Succs[0].Dominates(site.Block()) || !reaches(site.Block(), b) {
+			continue
+		}
+		switch {
+		case bin.Op == token.LSS:
+			// counter from 0 upwards
+			if phi, ok := bin.X.(*ssa.Phi); ok {
+				zero := false
+				for _, e := range phi.Edges {
+					if isConstInt(e, 0) {
+						zero = true
+					}
+				}
+				if zero {
+					return bin.Y, b
+				}
+			}
+			return bin.Y, b
+		case bin.Op == token.GTR && isConstInt(bin.Y, 0):
+			if phi, ok := bin.X.(*ssa.Phi); ok {
+				for _, e := range phi.Edges {
+					if sub, ok := e.(*ssa.BinOp); ok && sub.Op == token.SUB && sub.X == ssa.Value(phi) && isConstInt(sub.Y, 1) {
+						continue
+					}
+					if e != ssa.Value(phi) {
+						return e, b
+					}
+				}
+			}
+		}
+	}
+	return nil, nil
 }
